@@ -265,7 +265,13 @@ Record lspec := { ls_stream : stream; ls_len : Z;
 Inductive fop :=
 | FAppend (name : Z) (ls : list lspec) (cut : Z)
 | FRename (name to : Z)
-| FTrunc (name : Z) (ls : list lspec) (cut : Z).
+| FTrunc (name : Z) (ls : list lspec) (cut : Z)
+| FRemove (name : Z)            (* unlink: the file keeps its identity (the offsets file may still list it) but leaves the
+                                   set of watched files: nothing of it is promised from then on. Represented by the
+                                   negative name -1 - ident, which no operation can address *)
+| FLink (name target : Z).      (* symlink name -> target (created or re-pointed): no content changes. The harness keeps
+                                   target files outside the watched directory, the generator appends only to files a
+                                   symlink points to *)
 
 Record wfile := { w_ident : Z; w_name : Z; w_lines : list line (* newest first *); w_size : Z;
                   w_pend : option (Z * Z * stream) (* id, bytes still to write, stream *);
@@ -282,6 +288,10 @@ Definition fop_of_sx (s : sx) : option fop :=
   | SL [SZ 0; SZ n; ls; SZ cut] => match as_list lspec_of_sx ls with Some l => Some (FAppend n l cut) | None => None end
   | SL [SZ 1; SZ n; SZ m] => Some (FRename n m)
   | SL [SZ 2; SZ n; ls; SZ cut] => match as_list lspec_of_sx ls with Some l => Some (FTrunc n l cut) | None => None end
+  | SL [SZ 3; SZ n] => if 0 <=? n then Some (FRemove n) else None
+  | SL [SZ 6; SZ n] => if 0 <=? n then Some (FRemove n) else None     (* removed by file.d itself (remove_after); the harness makes sure it is gone *)
+  | SL [SZ 4; SZ n; SZ m] => Some (FLink n m)
+  | SL [SZ 5; SZ n; SZ m; SZ _] => Some (FLink n m)     (* the link's name is chosen by the harness (colliding source id) *)
   | _ => None
   end.
 
@@ -345,6 +355,15 @@ Definition apply_fop (live : bool) (w : world) (o : fop) : option (world * list 
           Some ({| files := replace_file f' (files w); next_id := nid; next_ident := next_ident w |}, fresh)
       | None => None
       end
+  | FRemove n =>
+      match find_file n (files w) with
+      | Some f =>
+          let f' := {| w_ident := w_ident f; w_name := -1 - w_ident f; w_lines := w_lines f; w_size := w_size f;
+                       w_pend := None; w_trunc := w_trunc f |} in
+          Some ({| files := replace_file f' (files w); next_id := next_id w; next_ident := next_ident w |}, [])
+      | None => None
+      end
+  | FLink _ _ => Some (w, [])
   end.
 
 (* ---- observations --------------------------------------------------------------------------------- *)
@@ -386,11 +405,17 @@ Definition phase_of_sx (s : sx) : option phase :=
 Definition snap_entry (ident : Z) (snap : list (Z * offsets)) : option offsets :=
   match find (fun e => Z.eqb (fst e) ident) snap with Some e => Some (snd e) | None => None end.
 
-Definition all_lines (w : world) : list line := flat_map (fun f => w_lines f) (files w).
+Definition watched (f : wfile) : bool := 0 <=? w_name f.       (* not removed *)
+Definition all_lines (w : world) : list line := flat_map (fun f => w_lines f) (filter watched (files w)).
+Definition every_line (w : world) : list line := flat_map (fun f => w_lines f) (files w).   (* removed files included *)
 Definition line_by_id (id : Z) (ls : list line) : option line := find (fun l => Z.eqb (l_id l) id) ls.
 
 Fixpoint strictly_sorted_ids (prev : Z) (d : list (Z * Z)) : bool :=
   match d with [] => true | (id, _) :: r => (prev <? id) && strictly_sorted_ids id r end.
+(* which = 2 only: a line may be delivered more than once within ONE run (the property promises "at least once"): a file
+   renamed while file.d runs can lose its job to the maintenance pass and get a new one that reads it from the start *)
+Fixpoint sorted_ids (prev : Z) (d : list (Z * Z)) : bool :=
+  match d with [] => true | (id, _) :: r => (prev <=? id) && sorted_ids id r end.
 
 (* bookkeeping across the phases *)
 Record acc := { a_world : world; a_ever : list line; a_gone : list line; a_expl : list line;
@@ -423,12 +448,12 @@ Definition clear_trunc (w : world) : world :=
                               w_pend := w_pend f; w_trunc := false |}) (files w);
      next_id := next_id w; next_ident := next_ident w |}.
 
-Definition phase_step (a : acc) (ph : phase) (o : runobs) : option acc :=
+Definition phase_step (dups : bool) (a : acc) (ph : phase) (o : runobs) : option acc :=
   match apply_fops false (a_world a) (p_down ph) [] with
   | None => None
   | Some (w1, _) =>
       (* restart: what each job skips, what it will hand over *)
-      let starts := map (fun f => (f, start_entry (a_first a) (a_snap a) f)) (files w1) in
+      let starts := map (fun f => (f, start_entry (a_first a) (a_snap a) f)) (filter watched (files w1)) in
       let void := existsb (fun fe => match snd fe with None => true | Some _ => false end) starts in
       let acc_all := a_ever a ++ a_gone a in
       let lost := flat_map (fun fe => match snd fe with
@@ -450,12 +475,15 @@ Definition phase_step (a : acc) (ph : phase) (o : runobs) : option acc :=
           (* a live truncation is detected iff the new size is below what the reader had consumed: the harness
              performs it at quiescence and writes less than the first old line, so it always is *)
           let lines2 := all_lines w2 in
-          let dl := map (fun d => match line_by_id (fst d) (all_lines w1c ++ lines2) with
+          (* a line delivered in this run may belong to a file that was removed later in the run, or to a content
+             generation between two truncations of the same run: look it up in the removed files and in everything the
+             live operations wrote as well *)
+          let dl := map (fun d => match line_by_id (fst d) (all_lines w1c ++ every_line w2 ++ map snd freshl) with
                                   | Some l => if Z.eqb (l_end l) (snd d) then Some l else None
                                   | None => None end) (r_deliv o) in
           let dlines := flat_map (fun x => match x with Some l => [l] | None => [] end) dl in
           let offs_ok := forallb (fun x => match x with Some _ => true | None => false end) dl in
-          let nodup := strictly_sorted_ids (-1) (r_deliv o) in
+          let nodup := if dups then sorted_ids (-1) (r_deliv o) else strictly_sorted_ids (-1) (r_deliv o) in
           let sub := forallb (fun l => mem l pred) dlines in
           (* lines that a live truncation removed before the end of the run are not promised *)
           let sup := forallb (fun l => negb (mem l lines2) || mem l dlines) pred in
@@ -475,10 +503,10 @@ Definition phase_step (a : acc) (ph : phase) (o : runobs) : option acc :=
       end
   end.
 
-Fixpoint phases_run (a : acc) (phs : list phase) (obs : list runobs) : option acc :=
+Fixpoint phases_run (dups : bool) (a : acc) (phs : list phase) (obs : list runobs) : option acc :=
   match phs, obs with
   | [], [] => Some a
-  | ph :: pr, o :: or => match phase_step a ph o with Some a' => phases_run a' pr or | None => None end
+  | ph :: pr, o :: or => match phase_step dups a ph o with Some a' => phases_run dups a' pr or | None => None end
   | _, _ => None
   end.
 
@@ -488,14 +516,15 @@ Definition acc0 : acc :=
 
 Definition ids (ls : list line) : sx := SL (map (fun l => SZ (l_id l)) ls).
 
-(* which = 0: the full property; which = 1: losses of the known multi-stream pattern tolerated *)
+(* which = 0: the full property; which = 1: losses of the known multi-stream pattern tolerated;
+   which = 2: the full property, the correspondence part accepts repeated deliveries of a line within one run *)
 Definition c03_entry (which : Z) (case obs : sx) : verdict :=
   match case with
   | SL [_; phs] =>
       match as_list phase_of_sx phs, as_list runobs_of_sx obs with
       | Some phases, Some robs =>
           if existsb (fun o => Z.eqb (r_status o) 2) robs then BadCase else
-          match phases_run acc0 phases robs with
+          match phases_run (Z.eqb which 2) acc0 phases robs with
           | None => BadCase
           | Some a =>
               if negb (a_lastq a) then BadCase else
